@@ -57,6 +57,9 @@ func (fc *FnCtx) keyTerm(k Val, mt *types.Map) Term {
 	case KStruct:
 		name := "Key<" + typeName(mt.Key()) + ">"
 		fc.structKeySort(mt.Key())
+		if k.S != "" && strings.HasPrefix(k.S, "qk_") {
+			return k.S // a key-sorted bound variable (forallKey)
+		}
 		var as []Term
 		for _, f := range k.Fs {
 			as = append(as, f.S)
@@ -109,7 +112,46 @@ func (fc *FnCtx) mapInit(st *State, r Term, T types.Type) {
 func (fc *FnCtx) mapSize(st *State, m Val, mt *types.Map) Term {
 	fc.mapRegionNames(m.T)
 	sz := fc.vc.region(st, mapName(mt)+".size", 1, "Int")
+	// a map with a positive size has a key: mapwit names one (the size is the cardinality of the
+	// key set; this is the only consequence of that which the model uses besides +1 / -1)
+	ks := fc.keySort(mt)
+	dom := app("select", fc.vc.region(st, mapName(mt)+".dom", 1, "(Array "+ks+" Bool)"), m.S)
+	wit := fc.vc.sc.declareFun("mapwit<"+ks+">", []string{"(Array " + ks + " Bool)"}, ks)
+	w := app(wit, dom)
+	fact := and(app(">=", app("select", sz, m.S), "0"), implies(app(">", app("select", sz, m.S), "0"), and(app("select", dom, w), fc.keyRangeFacts(mt, w))))
+	if !fc.vc.subs["mapwit:"+fact] {
+		fc.vc.subs["mapwit:"+fact] = true
+		fc.vc.sc.assert(fact)
+	}
 	return ite(eq(m.S, "0"), "0", app("select", sz, m.S))
+}
+
+// keyRangeFacts: the integer components of a key-sorted term lie in the range of their Go type.
+func (fc *FnCtx) keyRangeFacts(mt *types.Map, k Term) Term {
+	switch kindOfType(mt.Key()) {
+	case KStruct:
+		su := structOf(mt.Key())
+		name := "Key<" + typeName(mt.Key()) + ">"
+		fc.structKeySort(mt.Key())
+		out := "true"
+		for i := 0; i < su.NumFields(); i++ {
+			if ft := su.Field(i).Type(); kindOfType(ft) == KInt {
+				out = and(out, rangeFact(app(sym(name+"."+su.Field(i).Name()), k), ft))
+			}
+		}
+		return out
+	case KInt:
+		return rangeFact(k, mt.Key())
+	}
+	return "true"
+}
+
+// mapDomSel is the bare membership term dom[m][key] (usable as a quantifier trigger).
+func (fc *FnCtx) mapDomSel(st *State, m Val, mt *types.Map, key Term) Term {
+	fc.mapRegionNames(m.T)
+	ks := fc.keySort(mt)
+	dom := fc.vc.region(st, mapName(mt)+".dom", 1, "(Array "+ks+" Bool)")
+	return sel(dom, m.S, key)
 }
 
 func (fc *FnCtx) mapDom(st *State, m Val, mt *types.Map, key Term) Term {
@@ -168,6 +210,7 @@ func (fc *FnCtx) mapUpdate(in *ssa.MapUpdate, st *State) {
 	fc.mapFrame(m, in)
 	if fa := fieldOfLoad(in.Map); fa != nil {
 		fc.fieldHooks("mapwrite", fa, []ssa.Value{fa.X, in.Key}, in, st)
+		fc.fieldHooks("mapinsert", fa, []ssa.Value{fa.X, in.Key}, in, st)
 	}
 	fc.mapStore(st, m, mt, fc.keyTerm(fc.val(in.Key), mt), fc.val(in.Value))
 }
@@ -300,6 +343,7 @@ func (fc *FnCtx) mapDelete(m Val, k Val, in ssa.Instruction, st *State) {
 	if ci, ok := in.(ssa.CallInstruction); ok && len(ci.Common().Args) == 2 {
 		if fa := fieldOfLoad(ci.Common().Args[0]); fa != nil {
 			fc.fieldHooks("mapwrite", fa, []ssa.Value{fa.X, ci.Common().Args[1]}, in, st)
+			fc.fieldHooks("mapdelete", fa, []ssa.Value{fa.X, ci.Common().Args[1]}, in, st)
 		}
 	}
 	mt := m.T.Underlying().(*types.Map)
